@@ -73,6 +73,30 @@ impl<A> Lane<A> {
         ensures r@ == self@
     { unimplemented!() }
 
+    // ---- layout-revealing methods: deliberately weak (nondeterministic) contracts --------------------
+    // Code that starts to depend on the memory layout can only use these facts, so it fails its
+    // postcondition instead of falling outside the shim.
+    // `as_slice()` is Some only for standard (logical-order, contiguous) layout; whether it is Some is unknown.
+    #[verifier::external_body]
+    pub fn as_slice(&self) -> (r: Option<&[A]>)
+        ensures r matches Some(s) ==> s@ == self@
+    { unimplemented!() }
+
+    // memory order is *some* permutation of the logical order
+    #[verifier::external_body]
+    pub fn as_slice_memory_order(&self) -> (r: Option<&[A]>)
+        ensures r matches Some(s) ==> s@.to_multiset() == self@.to_multiset()
+    { unimplemented!() }
+
+    // the backing allocation of an owned array may be larger than, and ordered differently from, the array
+    #[verifier::external_body]
+    pub fn into_raw_vec_and_offset(self) -> (r: (Vec<A>, Option<usize>))
+    { unimplemented!() }
+
+    #[verifier::external_body]
+    pub fn into_raw_vec(self) -> (r: Vec<A>)
+    { unimplemented!() }
+
     // `view_mut()`: a mutable view of the whole array
     #[verifier::external_body]
     pub fn view_mut(&mut self) -> (r: &mut Lane<A>)
